@@ -3,6 +3,7 @@ package c15
 import (
 	"bytes"
 	"errors"
+	"fmt"
 	"io"
 
 	"verif/harness/kit"
@@ -16,7 +17,22 @@ type Script struct {
 	Chunks      []int    `json:"chunks"`        // cycle of read sizes; 0 = a zero-length read without error
 	EOFWithData bool     `json:"eof_with_data"` // the last bytes are returned together with io.EOF
 	FailAt      int      `json:"fail_at"`       // -1: ends with EOF; k: sticky error once k bytes were delivered
-	Closable    bool     `json:"closable"`      // the stream also implements io.Closer
+	// FailErr is the error value of that failure: "" (an error of the harness), unexpected-eof (io.ErrUnexpectedEOF: what
+	// net/http reports for a body that was cut short), wrapped-eof (an error that wraps io.EOF), closed-pipe
+	FailErr  string `json:"fail_err,omitempty"`
+	Closable bool   `json:"closable"` // the stream also implements io.Closer
+}
+
+func (s Script) failure() error {
+	switch s.FailErr {
+	case "unexpected-eof":
+		return io.ErrUnexpectedEOF
+	case "wrapped-eof":
+		return fmt.Errorf("connection lost: %w", io.EOF)
+	case "closed-pipe":
+		return io.ErrClosedPipe
+	}
+	return errScripted
 }
 
 // reader is the scripted io.Reader. Terminal conditions are sticky.
@@ -33,7 +49,7 @@ func (r *reader) Read(p []byte) (int, error) {
 	r.reads++
 	data := []byte(r.s.Data)
 	if r.s.FailAt >= 0 && r.pos >= r.s.FailAt {
-		return 0, errScripted
+		return 0, r.s.failure()
 	}
 	if r.pos >= len(data) {
 		return 0, io.EOF
